@@ -41,10 +41,19 @@ def run(ctx):
     def ticks(a):
         return [x.ticks for x in a]
 
+    DONORS = {"use": False, "live": []}
+
     def apply(kind, a, l, cls, acls, op):
         """Apply `op` to the real array `a` and the list `l`; returns (array outcome text, list outcome text)."""
         name = op[0]
-        mk = lambda vs: [cls.from_ticks(v) for v in vs]
+        def mk(vs):
+            items = [cls.from_ticks(v) for v in vs]
+            if DONORS["use"] and name in ("extend", "iadd", "setslice"):
+                # the argument is itself an array: it must neither be changed by the call nor share storage with `a` afterwards
+                src = acls(items)
+                DONORS["live"].append((src, list(vs)))
+                return src
+            return items
         def on_arr():
             if name == "get": return a[op[1]].ticks
             if name == "set": a[op[1]] = cls.from_ticks(op[2]); return None
@@ -113,12 +122,19 @@ def run(ctx):
             return f"extend [{','.join(map(str, op[1]))}]"
         return " ".join([name] + [str(x) for x in op[1:]])
 
-    def run_case(cls, acls, init, ops):
+    def run_case(cls, acls, init, ops, array_args=False):
         a = acls([cls.from_ticks(v) for v in init])
         l = list(init)
+        DONORS["use"], DONORS["live"] = array_args, []
         lines.append(f"new [{','.join(map(str, init))}]"); exp_list.append("ok [" + ",".join(map(str, init)) + "]")
         for op in ops:
             tl = apply(None, a, l, cls, acls, op)
+            for src, vals in DONORS["live"]:
+                if ticks(src) != vals:
+                    ctx.violation(what="an operation on one array changed another array (shared storage)", cls=acls.__name__, op=str(op)[:200],
+                                  observed=str(ticks(src))[:200], required=str(vals)[:200])
+                    DONORS["live"] = []
+                    break
             lines.append(line_of(op)); exp_list.append(tl)
             ctx.case((acls.__name__, tuple(init), str(op)))
             ctx.count("op", op[0])
@@ -168,7 +184,11 @@ def run(ctx):
             elif k in ("append", "remove", "index", "count"): ops.append((k, v))
             elif k in ("extend", "iadd"): ops.append((k, [rng.choice(pool) for _ in range(rng.randint(0, 3))]))
             else: ops.append((k,))
-        run_case(cls, acls, init, ops)
+        if h % 3 == 0:
+            # start from an empty array and let extend / += / slice assignment take arrays as arguments
+            run_case(cls, acls, [] if h % 2 else init, [("extend", [rng.choice(pool) for _ in range(rng.randint(1, 3))])] + ops, array_args=True)
+        else:
+            run_case(cls, acls, init, ops)
     # ---- wrong element / index types: TypeError and nothing inserted; equality; iteration -----------------------------------
     for cls, acls in classes:
         other = bt.DateTime if cls is bt.TimeDelta else bt.TimeDelta
